@@ -169,7 +169,7 @@ func TestVerifGuidClockBack(t *testing.T) {
 	out := vfOpen("guidclock")
 	defer out.Close()
 	opts := vfE1GOpts(t)
-	tcpAddr, httpAddr, nsqd := mustStartNSQD(opts)
+	tcpAddr, httpAddr, nsqd := vfStartNSQD(opts)
 	defer nsqd.Exit()
 	r := vfNewRand(1212)
 	n := vfEnvInt("VERIF_N", 14)
@@ -317,7 +317,7 @@ func TestVerifGuidClockBack(t *testing.T) {
 // TestVerifGuidClockFar — see the file comment. VERIF_RETRIES = how many 1 ms retries the window must span.
 func TestVerifGuidClockFar(t *testing.T) {
 	opts := vfE1GOpts(t)
-	tcpAddr, httpAddr, nsqd := mustStartNSQD(opts)
+	tcpAddr, httpAddr, nsqd := vfStartNSQD(opts)
 	want := int64(vfEnvInt("VERIF_RETRIES", 2500))
 	wallMax := time.Duration(vfEnvInt("VERIF_WALL_MAX_S", 25)) * time.Second
 	r := vfNewRand(1213)
@@ -428,7 +428,7 @@ func TestVerifGuidClockFar(t *testing.T) {
 // TestVerifGuidPublishOrder — see the file comment.
 func TestVerifGuidPublishOrder(t *testing.T) {
 	opts := vfE1GOpts(t)
-	tcpAddr, httpAddr, nsqd := mustStartNSQD(opts)
+	tcpAddr, httpAddr, nsqd := vfStartNSQD(opts)
 	defer nsqd.Exit()
 	r := vfNewRand(1214)
 	nops := vfEnvInt("VERIF_N", 300)
@@ -598,7 +598,7 @@ func TestVerifGuidPublishOrder(t *testing.T) {
 // Only public daemon API: GetTopic, GenerateID, DeleteExistingTopic. Prints how often it happened.
 func TestVerifGuidRecreate(t *testing.T) {
 	opts := vfE1GOpts(t)
-	_, _, nsqd := mustStartNSQD(opts)
+	_, _, nsqd := vfStartNSQD(opts)
 	defer nsqd.Exit()
 	cycles := vfEnvInt("VERIF_N", 300)
 	same, lower := 0, 0
